@@ -147,6 +147,9 @@ def check_case(case, ctx):
         return
     pep = env.pep
     oracles.check_heuristic_objective(ctx, pep.wrapper)
+    # the point returned by the last (heuristic) solve is only judged when it satisfies the solver's own problem: with
+    # eig_regularization 1e-6 the weights reach 1e6 and CLARABEL can report 'optimal' at a point that violates it by 0.1
+    primal_reliable = not oracles.solver_point_infeasible(pep.wrapper, ctx)
     tol_dr = opts["tol_dr"]
     scale = 1 + abs(tau)
     lc, ll = list(pep._list_of_constraints_sent_to_wrapper), list(pep._list_of_psd_sent_to_wrapper)
@@ -171,10 +174,10 @@ def check_case(case, ctx):
     if opts["ret"] == "primal" and abs(res - primal) > 1e-9 * scale:
         ctx.fail("primal-return-not-objective", "primal return %.12g, objective evaluates to %.12g" % (res, primal))
     ctx.observe("primal_shortfall/tol_dr", (primal_plain - primal) / tol_dr)
-    if primal < primal_plain - tol_dr - 5 * k * scale:
+    if primal_reliable and primal < primal_plain - 1.05 * tol_dr - 1e-6 * scale:
         ctx.fail("primal-below-stated-tolerance", "primal value %.9g is more than tol_dimension_reduction=%g below the "
                  "optimum %.9g" % (primal, tol_dr, primal_plain))
-    if primal > tau + 5 * k * scale:
+    if primal_reliable and primal > tau + 5 * k * scale:
         ctx.fail("primal-exceeds-dual", "primal value %.9g exceeds the dual bound %.9g" % (primal, tau))
 
     # returned instance
@@ -206,12 +209,12 @@ def check_case(case, ctx):
         ctx.fail("instance-infeasible-after-heuristic", "a sent constraint / LMI is violated by %.3e (relative) at the "
                  "instance returned with %s" % (worst, opts["drh"]))
     metrics = [sem.val_expr(e, val)[0] for e in env.declared_metrics]
-    if metrics and primal > min(metrics) + 5 * k * scale:
+    if primal_reliable and metrics and primal > min(metrics) + 5 * k * scale:
         ctx.fail("objective-above-min-metric", "objective %.9g exceeds the smallest metric %.9g" % (primal, min(metrics)))
     if opts["drh"] == "trace":
         tr_p, tr_a = float(np.trace(G_plain)), float(np.trace(G_after))
         ctx.observe("trace_increase/scale", (tr_a - tr_p) / (1 + abs(tr_p)))
-        if tr_a > tr_p + 5 * k * (1 + abs(tr_p)) + 0.0:
+        if primal_reliable and tr_a > tr_p + 5 * k * (1 + abs(tr_p)) + 0.0:
             ctx.fail("trace-increased", "trace of the Gram matrix went from %.9g (plain) to %.9g (trace heuristic)" % (tr_p, tr_a))
     # white box, cvxpy back-end: the added constraint is objective >= wc - tol exactly
     if side == "cvxpy":
@@ -222,10 +225,13 @@ def check_case(case, ctx):
             wc = None
             for evn in getattr(w, "events", []):
                 pass
-            # the first (plain) optimum of this very solve is the objective value before the heuristic: use primal_plain
-            if abs(lhs - (primal_plain - tol_dr)) > 10 * k * scale + 1e-9:
+            # the first (plain) optimum of this very solve is the objective value before the heuristic.  The plain solve of the
+            # same program (same solver, deterministic) gives it to ~1e-9, so the floor is compared to a fraction of the stated
+            # tolerance itself (a floor of 1e-4 for a stated 1e-6 must be seen)
+            if abs(lhs - (primal_plain - tol_dr)) > 0.05 * tol_dr + 1e-7 * scale:
                 ctx.fail("heuristic-constraint-not-wc-minus-tol", "the constraint added before the heuristic bounds the "
-                         "objective below by %.9g, expected optimum - tol = %.9g" % (lhs, primal_plain - tol_dr))
+                         "objective below by %.12g, expected optimum - tol = %.12g (tol_dimension_reduction = %g)"
+                         % (lhs, primal_plain - tol_dr, tol_dr))
         except Exception:  # noqa
             ctx.label("whitebox-unavailable")
     ev2 = np.linalg.eigvalsh((G_after + G_after.T) / 2)
